@@ -144,9 +144,10 @@ def run_stream(pid, name, cases, model_ok, level, oracle=None, desc="", nontrivi
             key = "\n".join(c.to_text().split("\n")[1:])
             seen.add(hash(key))
     if post is not None:
-        for cid, msg in post(cases, impl):
+        for item in post(cases, impl):
+            cid, msg = item[0], item[1]
             if len(res["oracle"]) < 60:
-                res["oracle"].append({"input": cid, "why": msg, "triggers": [], "case": "", "impl": "", "paired": True})
+                res["oracle"].append({"input": cid, "why": msg, "triggers": list(item[2]) if len(item) > 2 else [], "case": "", "impl": "", "paired": True})
     res.pop("_tc", None)
     # minimise the failing cases on the implementation, then ask the model which
     # known-finding triggers fire on the minimal history
@@ -164,7 +165,7 @@ def run_stream(pid, name, cases, model_ok, level, oracle=None, desc="", nontrivi
             m = t2.run_model_only("%s.%s.ptrig" % (pid, name), paired)
             for o in res["oracle"]:
                 if o.get("paired") and o["input"] in m:
-                    o["triggers"] = sorted(m[o["input"]]["F"])
+                    o["triggers"] = sorted(set(o.get("triggers", [])) | m[o["input"]]["F"])
                     o["case"] = byid[o["input"]].to_text()
         for o in res["oracle"]:
             c = small.get(o["input"])
